@@ -103,7 +103,7 @@ theorem C17c_plookup_consist_iff (k : Nat) (g : α) (cv scv : List α) (β γ α
     (hid : plkIdentity F (2 ^ (k + 1)) g cv scv β γ αc ν = true) :
     plkVerify F (2 ^ (k + 1)) g cv scv β γ αc ν true true = true ↔ orderOf (φ g) = 2 ^ (k + 1) := by
   rw [C17a_plookup_verify_iff h, C17c_genCheck_orderOf h]
-  simp [hid]
+  simp [hid, sizeOk_two_pow]
 
 /-- FINDING (sizes that are not powers of two are never refused by `Verify`): the generator check is not a primitivity
 test there — `g = −1` passes for size 3 and size 6 in every field of characteristic ≠ 2, although its order is 2 -/
